@@ -116,4 +116,504 @@ theorem pending_eq_nil {n : Nat} (l : List σ) (h : l.length % n = 0) : pending 
   apply List.eq_nil_of_length_eq_zero
   rw [pending_length, h]
 
+/-! ## One call, one channel -/
+
+theorem overlay_eq (buf : List σ) (pos : Nat) (data : List σ) (h : pos + data.length ≤ buf.length) :
+    overlay buf pos data = buf.take pos ++ data ++ buf.drop (pos + data.length) := by
+  unfold overlay
+  rw [List.take_of_length_le (l := data) (by omega)]
+
+theorem overlay_zero_take (buf data : List σ) (h : data.length ≤ buf.length) :
+    (overlay buf 0 data).take data.length = data := by
+  rw [overlay_eq buf 0 data (by omega)]
+  simp
+
+/-- the mask of a single-channel call with the channel active -/
+theorem effMask_one {um : Option (List Bool)} (hm : um = none ∨ um = some [true]) :
+    effMask 1 um = [true] := by
+  rcases hm with rfl | rfl <;> rfl
+
+theorem fftIn_step (u : FftUnit σ υ) {s : FState σ υ} {x : List σ} {ol : Nat} {um : Option (List Bool)}
+    (hu : ∀ st b, b.length = s.fftIn → (u.run st b).1.length = s.fftOut)
+    (hk : s.kind = .fftIn) (hwf : WF s) (h1 : s.nch = 1) (hm : um = none ∨ um = some [true])
+    (hv : ValidArgs s [x] [ol] um) {st : υ} {buf : List σ} (hov : s.ov = [st]) (hst : s.store = [buf]) :
+    ∃ s' r buf', s.process DivArith.exact u [x] [ol] um = (s', .ok r) ∧
+      r.out = [some (refStream u s.fftIn st (buf.take s.saved ++ x.take s.chunkIn))] ∧
+      s'.ov = [refState u s.fftIn st (buf.take s.saved ++ x.take s.chunkIn)] ∧
+      s'.store = [buf'] ∧
+      buf'.take s'.saved = pending s.fftIn (buf.take s.saved ++ x.take s.chunkIn) ∧
+      r.nIn ≤ x.length ∧
+      (refStream u s.fftIn st (buf.take s.saved ++ x.take s.chunkIn)).length = r.nOut := by
+  obtain ⟨hsv, hstl⟩ := hwf.fftIn_inv hk
+  have hbl : buf.length = s.chunkIn + s.fftIn := hstl buf (by rw [hst]; exact List.mem_singleton_self _)
+  have hfi := hwf.fftIn_pos
+  have hfo := hwf.fftOut_pos
+  have hum := hv.updateMask_eq
+  have hem : effMask s.nch um = [true] := by rw [h1]; exact effMask_one hm
+  have hval := hv.validate
+  have hxl : s.chunkIn ≤ x.length := by
+    have := hv.in_frames 0 (by simp) (by rw [hem]; simp) (by simp [hem])
+    simpa [FState.inputFramesNext, hk] using this
+  have hol : (s.saved + s.chunkIn) / s.fftIn * s.fftOut ≤ ol := by
+    have := hv.out_frames 0 (by simp) (by rw [hem]; simp) (by simp [hem])
+    simpa [FState.outputFramesNext, hk, fdiv_exact] using this
+  simp only [FState.inputFramesNext, FState.outputFramesNext, hk, fdiv_exact, hem, List.map_cons, List.map_nil] at hval
+  have hdm := Nat.div_mul_le_self (s.saved + s.chunkIn) s.fftIn
+  have hused : ¬ ((s.saved + s.chunkIn) / s.fftIn * s.fftIn > s.saved + s.chunkIn) := by omega
+  -- the frames held after the input has been appended
+  have hPl : (buf.take s.saved ++ x.take s.chunkIn).length = s.saved + s.chunkIn := by
+    rw [List.length_append, List.length_take, List.length_take]; omega
+  have hstore1 : overlay buf s.saved (List.take s.chunkIn x) =
+      (buf.take s.saved ++ x.take s.chunkIn) ++ buf.drop (s.saved + s.chunkIn) := by
+    rw [overlay_eq _ _ _ (by rw [List.length_take]; omega), List.length_take, Nat.min_eq_left hxl]
+  generalize hP : buf.take s.saved ++ x.take s.chunkIn = P at *
+  have hblocks : List.take (if s.fftOut = 0 then 0 else (ol + s.fftOut - 1) / s.fftOut)
+      (List.take ((s.saved + s.chunkIn) / s.fftIn)
+        (chunksOf s.fftIn (overlay buf s.saved (List.take s.chunkIn x)))) =
+      fullBlocks s.fftIn (P.length / s.fftIn) P := by
+    rw [if_neg (by omega), List.take_take, Nat.min_eq_right, hstore1, hPl,
+      take_chunksOf hfi _ _ (by rw [List.length_append, hPl]; omega),
+      fullBlocks_append_prefix _ _ _ _ (by rw [hPl]; exact hdm)]
+    rw [Nat.le_div_iff_mul_le hfo]; omega
+  have hbl2 : ∀ b ∈ fullBlocks s.fftIn (P.length / s.fftIn) P, b.length = s.fftIn :=
+    fullBlocks_block_length _ _ _ (Nat.div_mul_le_self _ _)
+  unfold FState.process
+  simp only [hum, hem, hk, hval, fdiv_exact, if_neg hused, hov, hst, List.zip_cons_cons, List.zip_nil_right,
+    mapActive, mapActive.go, if_true, hblocks, runBlocks_eq_runAll u _ _ st hbl2, List.map_cons, List.map_nil]
+  have hfl : (runAll u st (fullBlocks s.fftIn (P.length / s.fftIn) P)).1.flatten.length =
+      (s.saved + s.chunkIn) / s.fftIn * s.fftOut := by
+    rw [runAll_flatten_length u hu _ _ hbl2, fullBlocks_length, hPl]
+  refine ⟨_, _, _, rfl, ?_, rfl, rfl, ?_, hxl, hfl⟩
+  · simp only [refStream, refBlocks]
+    rw [List.take_take, List.take_of_length_le (by rw [hfl]; omega)]
+  · simp only [hstore1]
+    unfold pending
+    rw [hPl]
+    by_cases hc : s.saved + s.chunkIn > (s.saved + s.chunkIn) / s.fftIn * s.fftIn
+    · simp only [hc, if_true]
+      have hD : (List.take (s.saved + s.chunkIn - (s.saved + s.chunkIn) / s.fftIn * s.fftIn)
+          (List.drop ((s.saved + s.chunkIn) / s.fftIn * s.fftIn) (P ++ List.drop (s.saved + s.chunkIn) buf))) =
+          List.drop ((s.saved + s.chunkIn) / s.fftIn * s.fftIn) P := by
+        rw [List.drop_append_of_le_length (by omega), List.take_append_of_le_length (by rw [List.length_drop]; omega),
+          List.take_of_length_le (by rw [List.length_drop]; omega)]
+      rw [hD]
+      have hDl : (List.drop ((s.saved + s.chunkIn) / s.fftIn * s.fftIn) P).length =
+          s.saved + s.chunkIn - (s.saved + s.chunkIn) / s.fftIn * s.fftIn := by
+        rw [List.length_drop, hPl]
+      rw [← hDl]
+      exact overlay_zero_take _ _ (by rw [hDl, List.length_append, hPl]; omega)
+    · simp only [hc, if_false]
+      have h0 : s.saved + s.chunkIn - (s.saved + s.chunkIn) / s.fftIn * s.fftIn = 0 := by omega
+      rw [h0, List.take_zero, List.drop_of_length_le (by omega)]
+
+
+theorem fftOut_step (u : FftUnit σ υ) {s : FState σ υ} {x : List σ} {ol : Nat} {um : Option (List Bool)}
+    (hu : ∀ st b, b.length = s.fftIn → (u.run st b).1.length = s.fftOut)
+    (hk : s.kind = .fftOut) (hwf : WF s) (h1 : s.nch = 1) (hm : um = none ∨ um = some [true])
+    (hv : ValidArgs s [x] [ol] um) {st : υ} {buf : List σ} (hov : s.ov = [st]) (hst : s.store = [buf]) :
+    ∃ s' r buf', s.process DivArith.exact u [x] [ol] um = (s', .ok r) ∧
+      r.out = [some ((buf.take s.saved ++ refStream u s.fftIn st (x.take s.framesNeeded)).take s.chunkOut)] ∧
+      s'.ov = [refState u s.fftIn st (x.take s.framesNeeded)] ∧
+      s'.store = [buf'] ∧
+      buf'.take s'.saved =
+        (buf.take s.saved ++ refStream u s.fftIn st (x.take s.framesNeeded)).drop s.chunkOut ∧
+      (x.take s.framesNeeded).length % s.fftIn = 0 ∧
+      r.nIn ≤ x.length ∧
+      ((buf.take s.saved ++ refStream u s.fftIn st (x.take s.framesNeeded)).take s.chunkOut).length = r.nOut := by
+  obtain ⟨hsv, hfn, hstl⟩ := hwf.fftOut_inv hk
+  have hbl : buf.length = s.chunkOut + s.fftOut := hstl buf (by rw [hst]; exact List.mem_singleton_self _)
+  have hfi := hwf.fftIn_pos
+  have hfo := hwf.fftOut_pos
+  have hum := hv.updateMask_eq
+  have hem : effMask s.nch um = [true] := by rw [h1]; exact effMask_one hm
+  have hval := hv.validate
+  have hxl : s.framesNeeded ≤ x.length := by
+    have := hv.in_frames 0 (by simp) (by rw [hem]; simp) (by simp [hem])
+    simpa [FState.inputFramesNext, hk] using this
+  simp only [FState.inputFramesNext, FState.outputFramesNext, hk, hem, List.map_cons, List.map_nil] at hval
+  have hq : s.framesNeeded / s.fftIn = (s.chunkOut - s.saved + s.fftOut - 1) / s.fftOut := by
+    rw [hfn]; exact Nat.mul_div_cancel _ hfi
+  have hc1 := le_cdiv_mul (a := s.chunkOut - s.saved) hfo
+  have hc2 := cdiv_mul_le (s.chunkOut - s.saved) s.fftOut
+  have hcopy := fftOut_copyOut hwf hk
+  have hge : s.chunkOut ≤ s.saved + s.fftOut * (s.framesNeeded / s.fftIn) := of_decide_eq_true hcopy
+  have hlt : s.saved + s.fftOut * (s.framesNeeded / s.fftIn) - s.chunkOut < s.fftOut := by
+    rw [hq]
+    rcases Nat.lt_or_ge s.saved s.chunkOut with hc | hc
+    · rw [Nat.mul_comm]; omega
+    · have h0 : s.chunkOut - s.saved = 0 := by omega
+      rw [h0, cdiv_zero]; omega
+  have hany1 : (s.store.any fun b => decide (s.saved > b.length)) = false := by
+    rw [List.any_eq_false]
+    intro b hb
+    rw [hstl b hb]
+    simp only [decide_eq_true_eq]; omega
+  have hany2 : (s.store.any fun b => decide (s.chunkOut +
+      (s.saved + s.fftOut * (s.framesNeeded / s.fftIn) - s.chunkOut) > b.length)) = false := by
+    rw [List.any_eq_false]
+    intro b hb
+    rw [hstl b hb]
+    simp only [decide_eq_true_eq]; omega
+  rw [hst] at hany1 hany2
+  -- the input consumed: exactly `framesNeeded / fftIn` full blocks
+  have hXl : (x.take s.framesNeeded).length = s.framesNeeded / s.fftIn * s.fftIn := by
+    rw [List.length_take, Nat.min_eq_left hxl, hq, ← hfn]
+  generalize hX : x.take s.framesNeeded = X at *
+  have hXd : X.length / s.fftIn = s.framesNeeded / s.fftIn := by
+    rw [hXl, Nat.mul_div_cancel _ hfi]
+  have hblocks : List.take (if s.fftOut = 0 then 0 else (buf.length - s.saved + s.fftOut - 1) / s.fftOut)
+      (chunksOf s.fftIn X) = fullBlocks s.fftIn (X.length / s.fftIn) X := by
+    rw [if_neg (by omega), chunksOf_exact hfi _ _ hXl, hXd, List.take_of_length_le]
+    rw [fullBlocks_length, Nat.le_div_iff_mul_le hfo, hq, hbl]
+    omega
+  have hbl2 : ∀ b ∈ fullBlocks s.fftIn (X.length / s.fftIn) X, b.length = s.fftIn :=
+    fullBlocks_block_length _ _ _ (Nat.div_mul_le_self _ _)
+  have hRl : (refStream u s.fftIn st X).length = s.fftOut * (s.framesNeeded / s.fftIn) := by
+    unfold refStream refBlocks
+    rw [runAll_flatten_length u hu _ _ hbl2, fullBlocks_length, hXd, Nat.mul_comm]
+  unfold FState.process
+  simp only [hum, hem, hk, hval, hcopy, if_true, hany1, hany2, Bool.and_false, Bool.false_eq_true, if_false,
+    hov, hst, List.zip_cons_cons, List.zip_nil_right, mapActive, mapActive.go, hblocks,
+    runBlocks_eq_runAll u _ _ st hbl2, List.map_cons, List.map_nil, hX]
+  have hRdef : (runAll u st (fullBlocks s.fftIn (X.length / s.fftIn) X)).1.flatten = refStream u s.fftIn st X := rfl
+  rw [hRdef]
+  generalize hR : refStream u s.fftIn st X = R at *
+  have hstore1 : overlay buf s.saved R = (buf.take s.saved ++ R) ++ buf.drop (s.saved + R.length) :=
+    overlay_eq _ _ _ (by rw [hRl, hbl]; omega)
+  have hWl : (buf.take s.saved ++ R).length = s.saved + s.fftOut * (s.framesNeeded / s.fftIn) := by
+    rw [List.length_append, List.length_take, hRl, hbl]; omega
+  rw [hstore1]
+  generalize hW : buf.take s.saved ++ R = W at *
+  refine ⟨_, _, _, rfl, ?_, rfl, rfl, ?_, ?_, hxl, ?_⟩
+  · simp only
+    rw [List.take_append_of_le_length (by omega)]
+  · simp only
+    have hD : List.take (s.saved + s.fftOut * (s.framesNeeded / s.fftIn) - s.chunkOut)
+        (List.drop s.chunkOut (W ++ List.drop (s.saved + R.length) buf)) = List.drop s.chunkOut W := by
+      rw [List.drop_append_of_le_length (by omega), List.take_append_of_le_length (by rw [List.length_drop]; omega),
+        List.take_of_length_le (by rw [List.length_drop]; omega)]
+    rw [hD]
+    have hDl : (List.drop s.chunkOut W).length = s.saved + s.fftOut * (s.framesNeeded / s.fftIn) - s.chunkOut := by
+      rw [List.length_drop, hWl]
+    rw [← hDl]
+    exact overlay_zero_take _ _ (by rw [hDl, List.length_append, hWl]; omega)
+  · rw [hXl]; exact Nat.mul_mod_left _ _
+  · simp only
+    rw [List.length_take, hWl]; omega
+
+
+/-- the reference over exactly one block -/
+theorem ref_one_block (u : FftUnit σ υ) {n : Nat} (hn : 0 < n) (st : υ) (X : List σ) (hX : X.length = n) :
+    refStream u n st X = (u.run st X).1 ∧ refState u n st X = (u.run st X).2 := by
+  have h1 : X.length / n = 1 := by rw [hX]; exact Nat.div_self hn
+  have h2 : List.take n X = X := List.take_of_length_le (by omega)
+  simp [refStream, refState, refBlocks, h1, fullBlocks, runAll, h2]
+
+theorem fftIo_step (u : FftUnit σ υ) {s : FState σ υ} {x : List σ} {ol : Nat} {um : Option (List Bool)}
+    (hu : ∀ st b, b.length = s.fftIn → (u.run st b).1.length = s.fftOut)
+    (hk : s.kind = .fftIo) (hwf : WF s) (h1 : s.nch = 1) (hm : um = none ∨ um = some [true])
+    (hv : ValidArgs s [x] [ol] um) {st : υ} (hov : s.ov = [st]) :
+    ∃ s' r, s.process DivArith.exact u [x] [ol] um = (s', .ok r) ∧
+      r.out = [some (refStream u s.fftIn st (x.take s.fftIn))] ∧
+      s'.ov = [refState u s.fftIn st (x.take s.fftIn)] ∧
+      (x.take s.fftIn).length = s.fftIn ∧
+      r.nIn ≤ x.length ∧
+      (refStream u s.fftIn st (x.take s.fftIn)).length = r.nOut := by
+  obtain ⟨hci, hco, -⟩ := hwf.fftIo_inv hk
+  have hfi := hwf.fftIn_pos
+  have hum := hv.updateMask_eq
+  have hem : effMask s.nch um = [true] := by rw [h1]; exact effMask_one hm
+  have hval := hv.validate
+  have hxl : s.fftIn ≤ x.length := by
+    have := hv.in_frames 0 (by simp) (by rw [hem]; simp) (by simp [hem])
+    simpa [FState.inputFramesNext, hk] using this
+  simp only [FState.inputFramesNext, FState.outputFramesNext, hk, hem, hco, List.map_cons, List.map_nil] at hval
+  have hXl : (x.take s.fftIn).length = s.fftIn := by rw [List.length_take]; omega
+  obtain ⟨hr1, hr2⟩ := ref_one_block u hfi st _ hXl
+  rw [hr1, hr2]
+  generalize hX : x.take s.fftIn = X at *
+  unfold FState.process
+  simp only [hum, hem, hk, hci, hco, hval, hov, List.zip_cons_cons, List.zip_nil_right, mapActive, mapActive.go,
+    if_true, runBlocks, hX, hXl, ne_eq, not_true_eq_false, if_false, List.map_cons, List.map_nil]
+  refine ⟨_, _, rfl, ?_, rfl, trivial, hxl, hu st X hXl⟩
+  simp only
+  rw [List.take_of_length_le (by rw [hu st X hXl])]
+
+
+/-! ## Histories, one channel -/
+
+/-- the frames offered on channel 0 -/
+def chanIn (c : Call σ) : List σ := c.input.headD []
+/-- the frames returned on channel 0 -/
+def chanOut (r : FCallOut σ) : List σ := (r.out.headD none).getD []
+
+/-- run a history, collecting the frames consumed (`r.nIn` of what was offered) and the frames
+returned on channel 0 -/
+def runStream (u : FftUnit σ υ) : FState σ υ → List σ × List σ → List (Call σ) → FState σ υ × List σ × List σ
+  | s, acc, [] => (s, acc)
+  | s, acc, c :: cs =>
+    match s.process DivArith.exact u c.input c.outLens c.mask with
+    | (s', .ok r) => runStream u s' (acc.1 ++ (chanIn c).take r.nIn, acc.2 ++ chanOut r) cs
+    | (s', _) => runStream u s' acc cs
+
+/-- channel 0 is active in every call -/
+def Active1 (cs : List (Call σ)) : Prop := ∀ c ∈ cs, c.mask = none ∨ c.mask = some [true]
+
+/-- invariants proved call by call carry over to histories of any length; and if every call consumes
+`r.nIn` and returns `r.nOut` frames on channel 0, the streams collected by `runStream` have the
+lengths `runCalls` adds up -/
+theorem runStream_inv (u : FftUnit σ υ) (Inv : FState σ υ → List σ → List σ → Prop)
+    (step : ∀ (s : FState σ υ) (I O : List σ) (c : Call σ) (s' : FState σ υ) (r : FCallOut σ),
+      WF s → Inv s I O → ValidArgs s c.input c.outLens c.mask → (c.mask = none ∨ c.mask = some [true]) →
+      s.process DivArith.exact u c.input c.outLens c.mask = (s', .ok r) → CallSpec s s' r c.mask →
+      Inv s' (I ++ (chanIn c).take r.nIn) (O ++ chanOut r) ∧
+      ((chanIn c).take r.nIn).length = r.nIn ∧ (chanOut r).length = r.nOut) :
+    ∀ (cs : List (Call σ)) (s : FState σ υ) (I O : List σ), WF s → Inv s I O → ValidHist u s cs → Active1 cs →
+      WF (runStream u s (I, O) cs).1 ∧
+      Inv (runStream u s (I, O) cs).1 (runStream u s (I, O) cs).2.1 (runStream u s (I, O) cs).2.2 ∧
+      (runStream u s (I, O) cs).1 = (runCalls u s (I.length, O.length) cs).1 ∧
+      (runStream u s (I, O) cs).2.1.length = (runCalls u s (I.length, O.length) cs).2.1 ∧
+      (runStream u s (I, O) cs).2.2.length = (runCalls u s (I.length, O.length) cs).2.2
+  | [], _, _, _, hwf, hI, _, _ => ⟨hwf, hI, rfl, rfl, rfl⟩
+  | c :: cs, s, I, O, hwf, hI, hv, ha => by
+    obtain ⟨hv1, hv2⟩ := hv
+    obtain ⟨s', r, hp, hspec⟩ := process_ok u hwf hv1
+    rw [hp] at hv2
+    obtain ⟨hI', hl1, hl2⟩ := step s I O c s' r hwf hI hv1 (ha c (List.mem_cons_self ..)) hp hspec
+    have ih := runStream_inv u Inv step cs s' _ _ hspec.wf hI' hv2
+      (fun c' hc' => ha c' (List.mem_cons_of_mem _ hc'))
+    simp only [runStream, runCalls, hp]
+    rw [List.length_append, List.length_append, hl1, hl2] at ih
+    exact ih
+
+/-- a one-channel call has the shape `[x]`, `[ol]` -/
+theorem one_channel {s : FState σ υ} {c : Call σ} (h1 : s.nch = 1)
+    (hv : ValidArgs s c.input c.outLens c.mask) : ∃ x ol, c.input = [x] ∧ c.outLens = [ol] := by
+  obtain ⟨x, hx⟩ := List.length_eq_one_iff.mp (hv.in_len.trans h1)
+  obtain ⟨ol, hol⟩ := List.length_eq_one_iff.mp (hv.out_len.trans h1)
+  exact ⟨x, ol, hx, hol⟩
+
+theorem ref_nil (u : FftUnit σ υ) (n : Nat) (st : υ) :
+    refStream u n st [] = [] ∧ refState u n st [] = st ∧ pending n ([] : List σ) = [] := by
+  simp [refStream, refState, refBlocks, pending, fullBlocks, runAll]
+
+/-! ### FftFixedIn -/
+
+/-- the state of a one-channel FftFixedIn after consuming `I` and returning `O` -/
+def StreamInvIn (u : FftUnit σ υ) (n m : Nat) (s : FState σ υ) (I O : List σ) : Prop :=
+  s.kind = .fftIn ∧ s.nch = 1 ∧ s.fftIn = n ∧ s.fftOut = m ∧
+  ∃ buf, s.ov = [refState u n u.init I] ∧ s.store = [buf] ∧ buf.take s.saved = pending n I ∧
+    O = refStream u n u.init I
+
+theorem fftIn_stream_inv (u : FftUnit σ υ) {n m : Nat}
+    (hu : ∀ st b, b.length = n → (u.run st b).1.length = m)
+    (cs : List (Call σ)) (s : FState σ υ) (I O : List σ) (hwf : WF s) (hI : StreamInvIn u n m s I O)
+    (hv : ValidHist u s cs) (ha : Active1 cs) :
+    WF (runStream u s (I, O) cs).1 ∧
+    StreamInvIn u n m (runStream u s (I, O) cs).1 (runStream u s (I, O) cs).2.1 (runStream u s (I, O) cs).2.2 ∧
+    (runStream u s (I, O) cs).1 = (runCalls u s (I.length, O.length) cs).1 ∧
+    (runStream u s (I, O) cs).2.1.length = (runCalls u s (I.length, O.length) cs).2.1 ∧
+    (runStream u s (I, O) cs).2.2.length = (runCalls u s (I.length, O.length) cs).2.2 := by
+  refine runStream_inv u (StreamInvIn u n m) ?_ cs s I O hwf hI hv ha
+  intro s I O c s' r hwf ⟨hk, h1, hn, hm, buf, hov, hst, hbuf, hO⟩ hv hmask hp hspec
+  obtain ⟨x, ol, hx, hol⟩ := one_channel h1 hv
+  rw [hx, hol] at hv hp
+  subst hn hm
+  obtain ⟨s'', r', buf', hp', ho, hov', hst', hbuf', hl1, hl2⟩ := fftIn_step u hu hk hwf h1 hmask hv hov hst
+  rw [hp] at hp'
+  obtain ⟨rfl, hr⟩ := Prod.mk.inj hp'
+  obtain rfl : r = r' := Outcome.ok.inj hr
+  obtain ⟨e1, e2, -, -, e5, e6⟩ := hspec.shape
+  have hnin : r.nIn = s.chunkIn := by rw [hspec.nIn_eq]; simp only [FState.inputFramesNext, hk]
+  have happ := ref_append u hwf.fftIn_pos u.init I (x.take s.chunkIn)
+  rw [hbuf] at ho hov' hbuf' hl2
+  refine ⟨⟨e1.trans hk, e2.trans h1, e5, e6, buf', ?_, hst', ?_, ?_⟩, ?_, ?_⟩
+  rotate_left 3
+  · simp only [chanIn, hx, List.headD_cons, List.length_take]; omega
+  · simp only [chanOut, ho, List.headD_cons, Option.getD_some]; exact hl2
+  · simp only [chanIn, hx, List.headD_cons, hnin]; rw [hov', happ.2.1]
+  · simp only [chanIn, hx, List.headD_cons, hnin]; rw [hbuf', happ.2.2]
+  · simp only [chanIn, chanOut, hx, List.headD_cons, hnin, ho, Option.getD_some]
+    rw [hO, happ.1]
+
+/-- **FftFixedIn, one channel, any valid history from a new resampler**: everything returned so far
+is exactly the reference stream of everything consumed so far, and the `saved` frames at the front
+of the input buffer are exactly the consumed frames not yet processed. -/
+theorem fftIn_stream {u : FftUnit σ υ} {z : σ} {ri ro chunk sub : Nat} {s : FState σ υ}
+    (h : FState.init DivArith.exact u z .fftIn ri ro chunk sub 1 = .ok s)
+    (hu : ∀ st b, b.length = s.fftIn → (u.run st b).1.length = s.fftOut)
+    (cs : List (Call σ)) (hv : ValidHist u s cs) (ha : Active1 cs) :
+    (runStream u s ([], []) cs).2.2 = refStream u s.fftIn u.init (runStream u s ([], []) cs).2.1 ∧
+    (∃ buf, (runStream u s ([], []) cs).1.store = [buf] ∧
+      buf.take (runStream u s ([], []) cs).1.saved = pending s.fftIn (runStream u s ([], []) cs).2.1) ∧
+      (runStream u s ([], []) cs).2.1.length = (runCalls u s (0, 0) cs).2.1 ∧
+      (runStream u s ([], []) cs).2.2.length = (runCalls u s (0, 0) cs).2.2 := by
+  obtain ⟨-, -, hk, hn, hsv, hov, -, -, hin, -⟩ := init_ok_fields h
+  obtain ⟨-, -, -, -, -, hst⟩ := hin rfl
+  obtain ⟨r1, r2, r3⟩ := ref_nil u s.fftIn u.init
+  have h0 : StreamInvIn u s.fftIn s.fftOut s [] [] :=
+    ⟨hk, hn, rfl, rfl, _, by rw [hov, r2]; rfl, by rw [hst]; rfl, by rw [hsv, r3]; rfl, r1.symm⟩
+  obtain ⟨-, ⟨-, -, -, -, buf, -, k2, k3, k4⟩, -, l1, l2⟩ := fftIn_stream_inv u hu cs s [] [] (init_wf' h) h0 hv ha
+  exact ⟨k4, ⟨buf, k2, k3⟩, l1, l2⟩
+
+/-! ### FftFixedOut -/
+
+/-- the state of a one-channel FftFixedOut after consuming `I` and returning `O`: the frames returned
+followed by the `saved` frames at the front of the output buffer are the reference stream -/
+def StreamInvOut (u : FftUnit σ υ) (n m : Nat) (s : FState σ υ) (I O : List σ) : Prop :=
+  s.kind = .fftOut ∧ s.nch = 1 ∧ s.fftIn = n ∧ s.fftOut = m ∧ I.length % n = 0 ∧
+  ∃ buf, s.ov = [refState u n u.init I] ∧ s.store = [buf] ∧
+    O ++ buf.take s.saved = refStream u n u.init I
+
+theorem fftOut_stream_inv (u : FftUnit σ υ) {n m : Nat}
+    (hu : ∀ st b, b.length = n → (u.run st b).1.length = m)
+    (cs : List (Call σ)) (s : FState σ υ) (I O : List σ) (hwf : WF s) (hI : StreamInvOut u n m s I O)
+    (hv : ValidHist u s cs) (ha : Active1 cs) :
+    WF (runStream u s (I, O) cs).1 ∧
+    StreamInvOut u n m (runStream u s (I, O) cs).1 (runStream u s (I, O) cs).2.1 (runStream u s (I, O) cs).2.2 ∧
+    (runStream u s (I, O) cs).1 = (runCalls u s (I.length, O.length) cs).1 ∧
+    (runStream u s (I, O) cs).2.1.length = (runCalls u s (I.length, O.length) cs).2.1 ∧
+    (runStream u s (I, O) cs).2.2.length = (runCalls u s (I.length, O.length) cs).2.2 := by
+  refine runStream_inv u (StreamInvOut u n m) ?_ cs s I O hwf hI hv ha
+  intro s I O c s' r hwf ⟨hk, h1, hn, hm, hIl, buf, hov, hst, hO⟩ hv hmask hp hspec
+  obtain ⟨x, ol, hx, hol⟩ := one_channel h1 hv
+  rw [hx, hol] at hv hp
+  subst hn hm
+  obtain ⟨s'', r', buf', hp', ho, hov', hst', hbuf', hXl, hl1, hl2⟩ := fftOut_step u hu hk hwf h1 hmask hv hov hst
+  rw [hp] at hp'
+  obtain ⟨rfl, hr⟩ := Prod.mk.inj hp'
+  obtain rfl : r = r' := Outcome.ok.inj hr
+  obtain ⟨e1, e2, -, -, e5, e6⟩ := hspec.shape
+  have hnin : r.nIn = s.framesNeeded := by rw [hspec.nIn_eq]; simp only [FState.inputFramesNext, hk]
+  have happ := ref_append u hwf.fftIn_pos u.init I (x.take s.framesNeeded)
+  rw [pending_eq_nil I hIl, List.nil_append] at happ
+  refine ⟨⟨e1.trans hk, e2.trans h1, e5, e6, ?_, buf', ?_, hst', ?_⟩, ?_, ?_⟩
+  rotate_left 3
+  · simp only [chanIn, hx, List.headD_cons, List.length_take]; omega
+  · simp only [chanOut, ho, List.headD_cons, Option.getD_some]; exact hl2
+  · simp only [chanIn, hx, List.headD_cons, hnin, List.length_append]
+    rw [Nat.add_mod, hIl, hXl]; simp
+  · simp only [chanIn, hx, List.headD_cons, hnin]; rw [hov', happ.2.1]
+  · simp only [chanIn, chanOut, hx, List.headD_cons, hnin, ho, Option.getD_some]
+    rw [hbuf', List.append_assoc, List.take_append_drop, happ.1, ← hO, List.append_assoc]
+
+/-- **FftFixedOut, one channel, any valid history from a new resampler**: the frames returned so far,
+followed by the `saved` frames at the front of the output buffer, are exactly the reference stream
+of the frames consumed so far — so what was returned is its first `totalOut` frames, and the saved
+frames are the next ones. -/
+theorem fftOut_stream {u : FftUnit σ υ} {z : σ} {ri ro chunk sub : Nat} {s : FState σ υ}
+    (h : FState.init DivArith.exact u z .fftOut ri ro chunk sub 1 = .ok s)
+    (hu : ∀ st b, b.length = s.fftIn → (u.run st b).1.length = s.fftOut)
+    (cs : List (Call σ)) (hv : ValidHist u s cs) (ha : Active1 cs) :
+    (∃ buf, (runStream u s ([], []) cs).1.store = [buf] ∧
+      (runStream u s ([], []) cs).2.2 ++ buf.take (runStream u s ([], []) cs).1.saved =
+        refStream u s.fftIn u.init (runStream u s ([], []) cs).2.1 ∧
+      (runStream u s ([], []) cs).2.2 =
+        (refStream u s.fftIn u.init (runStream u s ([], []) cs).2.1).take (runStream u s ([], []) cs).2.2.length ∧
+      buf.take (runStream u s ([], []) cs).1.saved =
+        (refStream u s.fftIn u.init (runStream u s ([], []) cs).2.1).drop (runStream u s ([], []) cs).2.2.length) ∧
+      (runStream u s ([], []) cs).2.1.length = (runCalls u s (0, 0) cs).2.1 ∧
+      (runStream u s ([], []) cs).2.2.length = (runCalls u s (0, 0) cs).2.2 := by
+  obtain ⟨-, -, hk, hn, hsv, hov, -, -, -, hout⟩ := init_ok_fields h
+  obtain ⟨-, -, -, -, -, hst⟩ := hout rfl
+  obtain ⟨r1, r2, r3⟩ := ref_nil u s.fftIn u.init
+  have h0 : StreamInvOut u s.fftIn s.fftOut s [] [] :=
+    ⟨hk, hn, rfl, rfl, by simp, _, by rw [hov, r2]; rfl, by rw [hst]; rfl, by rw [hsv, r1]; rfl⟩
+  obtain ⟨-, ⟨-, -, -, -, -, buf, -, k2, k3⟩, -, l1, l2⟩ := fftOut_stream_inv u hu cs s [] [] (init_wf' h) h0 hv ha
+  refine ⟨⟨buf, k2, k3, ?_, ?_⟩, l1, l2⟩
+  · rw [← k3, List.take_left']; rfl
+  · rw [← k3, List.drop_left']; rfl
+
+/-! ### FftFixedInOut -/
+
+def StreamInvIo (u : FftUnit σ υ) (n m : Nat) (s : FState σ υ) (I O : List σ) : Prop :=
+  s.kind = .fftIo ∧ s.nch = 1 ∧ s.fftIn = n ∧ s.fftOut = m ∧ I.length % n = 0 ∧
+  s.ov = [refState u n u.init I] ∧ O = refStream u n u.init I
+
+theorem fftIo_stream_inv (u : FftUnit σ υ) {n m : Nat}
+    (hu : ∀ st b, b.length = n → (u.run st b).1.length = m)
+    (cs : List (Call σ)) (s : FState σ υ) (I O : List σ) (hwf : WF s) (hI : StreamInvIo u n m s I O)
+    (hv : ValidHist u s cs) (ha : Active1 cs) :
+    WF (runStream u s (I, O) cs).1 ∧
+    StreamInvIo u n m (runStream u s (I, O) cs).1 (runStream u s (I, O) cs).2.1 (runStream u s (I, O) cs).2.2 ∧
+    (runStream u s (I, O) cs).1 = (runCalls u s (I.length, O.length) cs).1 ∧
+    (runStream u s (I, O) cs).2.1.length = (runCalls u s (I.length, O.length) cs).2.1 ∧
+    (runStream u s (I, O) cs).2.2.length = (runCalls u s (I.length, O.length) cs).2.2 := by
+  refine runStream_inv u (StreamInvIo u n m) ?_ cs s I O hwf hI hv ha
+  intro s I O c s' r hwf ⟨hk, h1, hn, hm, hIl, hov, hO⟩ hv hmask hp hspec
+  obtain ⟨x, ol, hx, hol⟩ := one_channel h1 hv
+  rw [hx, hol] at hv hp
+  subst hn hm
+  obtain ⟨s'', r', hp', ho, hov', hXl, hl1, hl2⟩ := fftIo_step u hu hk hwf h1 hmask hv hov
+  rw [hp] at hp'
+  obtain ⟨rfl, hr⟩ := Prod.mk.inj hp'
+  obtain rfl : r = r' := Outcome.ok.inj hr
+  obtain ⟨e1, e2, -, -, e5, e6⟩ := hspec.shape
+  have hnin : r.nIn = s.fftIn := by rw [hspec.nIn_eq]; simp only [FState.inputFramesNext, hk]
+  have happ := ref_append u hwf.fftIn_pos u.init I (x.take s.fftIn)
+  rw [pending_eq_nil I hIl, List.nil_append] at happ
+  refine ⟨⟨e1.trans hk, e2.trans h1, e5, e6, ?_, ?_, ?_⟩, ?_, ?_⟩
+  rotate_left 3
+  · simp only [chanIn, hx, List.headD_cons, List.length_take]; omega
+  · simp only [chanOut, ho, List.headD_cons, Option.getD_some]; exact hl2
+  · simp only [chanIn, hx, List.headD_cons, hnin, List.length_append]
+    rw [Nat.add_mod, hIl, hXl]; simp
+  · simp only [chanIn, hx, List.headD_cons, hnin]; rw [hov', happ.2.1]
+  · simp only [chanIn, chanOut, hx, List.headD_cons, hnin, ho, Option.getD_some]
+    rw [hO, happ.1]
+
+/-- **FftFixedInOut, one channel, any valid history from a new resampler**: everything returned is
+the reference stream of everything consumed (block for block, nothing held back). -/
+theorem fftIo_stream {u : FftUnit σ υ} {z : σ} {ri ro chunk sub : Nat} {s : FState σ υ}
+    (h : FState.init DivArith.exact u z .fftIo ri ro chunk sub 1 = .ok s)
+    (hu : ∀ st b, b.length = s.fftIn → (u.run st b).1.length = s.fftOut)
+    (cs : List (Call σ)) (hv : ValidHist u s cs) (ha : Active1 cs) :
+    (runStream u s ([], []) cs).2.2 = refStream u s.fftIn u.init (runStream u s ([], []) cs).2.1 ∧
+    (runStream u s ([], []) cs).2.1.length % s.fftIn = 0 ∧
+      (runStream u s ([], []) cs).2.1.length = (runCalls u s (0, 0) cs).2.1 ∧
+      (runStream u s ([], []) cs).2.2.length = (runCalls u s (0, 0) cs).2.2 := by
+  obtain ⟨-, -, hk, hn, hsv, hov, -, -, -, -⟩ := init_ok_fields h
+  obtain ⟨r1, r2, r3⟩ := ref_nil u s.fftIn u.init
+  have h0 : StreamInvIo u s.fftIn s.fftOut s [] [] :=
+    ⟨hk, hn, rfl, rfl, by simp, by rw [hov, r2]; rfl, r1.symm⟩
+  obtain ⟨-, ⟨-, -, -, -, k1, -, k3⟩, -, l1, l2⟩ := fftIo_stream_inv u hu cs s [] [] (init_wf' h) h0 hv ha
+  exact ⟨k3, k1, l1, l2⟩
+
+/-! ## Non-vacuity -/
+
+section Examples
+
+/-- the example unit of `Control.lean` obeys the length law for blocks 4 → 6 -/
+theorem exUnit_len : ∀ (st : Unit) (b : List Nat), b.length = 4 → (exUnit.run st b).1.length = 6 := by
+  intro st b hb
+  simp [exUnit]
+
+/-- the hypotheses of `fftIn_stream` are satisfiable: the two-call history of `Control.lean` -/
+example :
+    (runStream exUnit exIn ([], []) [⟨[[1, 2, 3, 4]], [6], none⟩, ⟨[[5, 6, 7, 8, 9]], [7], some [true]⟩]).2.2 =
+    refStream exUnit exIn.fftIn exUnit.init
+      (runStream exUnit exIn ([], []) [⟨[[1, 2, 3, 4]], [6], none⟩, ⟨[[5, 6, 7, 8, 9]], [7], some [true]⟩]).2.1 :=
+  (fftIn_stream (u := exUnit) (z := 0) (ri := 2) (ro := 3) (chunk := 4) (sub := 1) (s := exIn) rfl
+    exUnit_len _ exIn_hist (by intro c hc; simp at hc; rcases hc with rfl | rfl <;> simp)).1
+
+/-- … and computed by the model: 8 frames consumed (the 9th offered frame is not), 12 returned -/
+example :
+    (runStream exUnit exIn ([], []) [⟨[[1, 2, 3, 4]], [6], none⟩, ⟨[[5, 6, 7, 8, 9]], [7], some [true]⟩]).2 =
+    ([1, 2, 3, 4, 5, 6, 7, 8], [1, 2, 3, 4, 0, 0, 5, 6, 7, 8, 0, 0]) := by decide
+
+/-- a FftFixedIn whose chunk (5) is not a multiple of the block (6 → 9): frames are held back.
+Two calls: 10 frames consumed, one block processed, 4 frames pending at the front of the buffer. -/
+def exUnit9 : FftUnit Nat Unit := ⟨(), fun _ b => ((b ++ [0, 0, 0, 0, 0, 0, 0, 0, 0]).take 9, ())⟩
+
+example : ∃ s, FState.init DivArith.exact exUnit9 0 .fftIn 2 3 5 1 1 = .ok s ∧ s.fftIn = 6 ∧ s.fftOut = 9 ∧
+    (runStream exUnit9 s ([], []) [⟨[[1, 2, 3, 4, 5]], [0], none⟩, ⟨[[6, 7, 8, 9, 10]], [9], none⟩]).2 =
+      ([1, 2, 3, 4, 5, 6, 7, 8, 9, 10], [1, 2, 3, 4, 5, 6, 0, 0, 0]) ∧
+    (runStream exUnit9 s ([], []) [⟨[[1, 2, 3, 4, 5]], [0], none⟩, ⟨[[6, 7, 8, 9, 10]], [9], none⟩]).1.saved = 4 ∧
+    ((runStream exUnit9 s ([], []) [⟨[[1, 2, 3, 4, 5]], [0], none⟩, ⟨[[6, 7, 8, 9, 10]], [9], none⟩]).1.store.map
+      (List.take 4)) = [[7, 8, 9, 10]] :=
+  ⟨_, rfl, rfl, rfl, by decide, by decide, by decide⟩
+
+end Examples
+
+
 end Rubato.FftProofs
